@@ -23,7 +23,11 @@ func (m *multiFlag) Set(s string) error { *m = append(*m, s); return nil }
 
 func main() {
 	debug.SetGCPercent(1000)
-	debug.SetMemoryLimit(16 << 30) // soft limit: GC gets more aggressive near it (several checks may run side by side)
+	memGB := int64(16) // soft limit: GC gets more aggressive near it (several checks may run side by side)
+	if v, err := strconv.Atoi(os.Getenv("VERIF_MEMLIMIT_GB")); err == nil && v > 0 {
+		memGB = int64(v)
+	}
+	debug.SetMemoryLimit(memGB << 30)
 	if len(os.Args) > 1 && os.Args[1] == "check" {
 		os.Exit(checkMain(os.Args[2:]))
 	}
